@@ -160,12 +160,53 @@ def mk_op(spec):
     raise AssertionError(k)
 
 
+ALIAS_FLAGS = ["com", "op", "inc", "meta", "iter", "again"]
+
+
+class Pool:
+    """The caller's Python objects of one case.  The property speaks about commands as values; the real
+    builders receive objects, so how the harness shares them is part of the input (`case["alias"]`):
+      com   - commands with the same operation and arguments are ONE Command object, added again and again
+              (`c = Not(0); add(c); add(c)`, `extend(*[Not(1)] * 2)`)
+      op    - commands with the same operation description share one operation object
+      inc   - commands with the same argument list share one `incoming` list (Command(op, shared_list))
+      meta  - equal metadata is one dict object handed to several adds
+      iter  - track_wires receives a one-shot iterator instead of a list
+      again - the whole tracked program is run a second time on a fresh TrackedDfg with the very same
+              Command / metadata objects, position by position (objects handed to two builders)
+    One Pool per side (tracked / plain): the two sides never share objects, they share the pattern.  The
+    plain side follows the operation-sharing pattern of the tracked side position by position (`opplan`):
+    a partial operation (Noop, MakeTuple, UnpackTuple) is completed in place by the builder, so one
+    operation object in two nodes shows the types of its last use in both — in a plain Dfg just as in a
+    TrackedDfg; the explicit program is "the same wires passed explicitly", with the same operations."""
+
+    def __init__(self, alias, opplan=None, partial_ok=True):
+        self.alias = frozenset(alias or ())
+        # A shared partial operation is retyped by every use.  Types decide nothing in these programs except
+        # for UnpackTuple (number of outputs, assertion on the input type), and the generator / the model
+        # name outputs statically; so in a program with an UnpackTuple command the partial operations (and
+        # the commands holding them) are fresh objects, Custom operations and their commands are shared.
+        self.partial_ok = partial_ok
+        self.coms, self.ops, self.incs, self.metas = {}, {}, {}, {}
+        self.opids = {}
+        self.made = []        # Command objects in the order the program asked for them
+        self.made_ops = []    # per position: which operation object (ordinal of first appearance)
+        self.opord = {}
+        self.given = []       # metadata objects in the order the program gave them
+        self.opplan = opplan  # plain side: made_ops of the tracked side
+        self.planops = {}
+
+
 class Runner:
-    def __init__(self, builder, ctxi):
+    def __init__(self, builder, ctxi, pool=None, replay=False):
         self.d = builder
         self.handles = []
-        self.opids = {}
+        self.pool = pool if pool is not None else Pool(None)
+        self.opids = self.pool.opids
         self.I = ctxi
+        self.replay = replay  # second builder: hand out the objects of the first run, position by position
+        self.kc = 0
+        self.km = 0
 
     def wire(self, w):
         from hugr.hugr.node_port import Node
@@ -182,9 +223,61 @@ class Runner:
         return a if is_int(a) else self.wire(a)
 
     def com(self, spec, args):
-        op = mk_op(spec)
-        self.opids[id(op)] = (op, self.I(("op", json.dumps(spec))))
-        return op(*[self.arg(a) for a in args])
+        P = self.pool
+        if self.replay and self.kc < len(P.made):
+            c = P.made[self.kc]
+            self.kc += 1
+            return c
+        c = self._com(spec, args)
+        P.made.append(c)
+        P.made_ops.append(P.opord.setdefault(id(c.op), len(P.opord)))
+        return c
+
+    def _com(self, spec, args):
+        from hugr.ops import Command
+        P = self.pool
+        key = json.dumps([spec, args])
+        okey = json.dumps(spec)
+        k = len(P.made)
+        if P.opplan is not None:
+            # plain side: no Command is shared (the explicit commands differ), operations as on the other side
+            o = P.opplan[k] if k < len(P.opplan) else ("own", k)
+            if o not in P.planops:
+                P.planops[o] = mk_op(spec)
+                self.opids[id(P.planops[o])] = (P.planops[o], self.I(("op", okey)))
+            op = P.planops[o]
+        elif "com" in P.alias and key in P.coms and (spec[0] == "custom" or P.partial_ok):
+            return P.coms[key]
+        elif "op" in P.alias and okey in P.ops and (spec[0] == "custom" or P.partial_ok):
+            op = P.ops[okey]
+        else:
+            op = mk_op(spec)
+            P.ops[okey] = op
+            self.opids[id(op)] = (op, self.I(("op", okey)))
+        if "inc" in P.alias:
+            ikey = json.dumps(args)
+            if ikey not in P.incs:
+                P.incs[ikey] = [self.arg(a) for a in args]
+            c = Command(op, P.incs[ikey])     # what op(*args) builds, with the caller's own list
+        else:
+            c = op(*[self.arg(a) for a in args])
+        P.coms[key] = c
+        return c
+
+    def meta(self, m):
+        P = self.pool
+        if self.replay and self.km < len(P.given):
+            m = P.given[self.km]
+            self.km += 1
+            return m
+        if m is not None and "meta" in P.alias:
+            m = P.metas.setdefault(json.dumps(m, sort_keys=True), m)
+        P.given.append(m)
+        return m
+
+    def wires_arg(self, ws):
+        ws = [self.wire(w) for w in ws]
+        return iter(ws) if "iter" in self.pool.alias else ws
 
     def observe(self, res, tracked):
         from hugr.hugr.node_port import Node
@@ -237,10 +330,10 @@ class Runner:
         return {"io": io, "nodes": onodes, "links": sorted(links), "tracked": tr, "res": res, "extra": extra}
 
 
-def run_tracked(case, I):
+def run_tracked(case, I, pool=None, replay=False):
     from hugr.build.tracked_dfg import TrackedDfg
     d = TrackedDfg(*[mk_type(t) for t in case["tys"]], track_inputs=case["track"])
-    r = Runner(d, I)
+    r = Runner(d, I, pool, replay)
     res = "ok"
     try:
         for c in case["prog"]:
@@ -248,17 +341,13 @@ def run_tracked(case, I):
             if k == "track_wire":
                 d.track_wire(r.wire(c[1]))
             elif k == "track_wires":
-                d.track_wires([r.wire(w) for w in c[1]])
+                d.track_wires(r.wires_arg(c[1]))
             elif k == "track_inputs":
                 d.track_inputs()
             elif k == "untrack":
                 d.untrack_wire(c[1])
             elif k == "add":
-                before = len(d.hugr)
-                try:
-                    n = d.add(r.com(c[1], c[3]), metadata=c[2])
-                finally:
-                    pass
+                n = d.add(r.com(c[1], c[3]), metadata=r.meta(c[2]))
                 r.handles.append(n)
             elif k == "extend":
                 ns = d.extend(*[r.com(spec, args) for spec, args in c[1]])
@@ -274,15 +363,15 @@ def run_tracked(case, I):
     return r.observe(res, True)
 
 
-def run_plain(case, q, I):
+def run_plain(case, q, I, opplan=None):
     from hugr.build.dfg import Dfg
     d = Dfg(*[mk_type(t) for t in case["tys"]])
-    r = Runner(d, I)
+    r = Runner(d, I, Pool([f for f in case.get("alias") or () if f != "again"], opplan or []))
     res = "ok"
     try:
         for c in q:
             if c[0] == "add":
-                n = d.add(r.com(c[1], c[3]), metadata=c[2])
+                n = d.add(r.com(c[1], c[3]), metadata=r.meta(c[2]))
                 r.handles.append(n)
             else:
                 d.set_outputs(*[r.wire(w) for w in c[1]])
@@ -365,7 +454,10 @@ def rand_meta(rng):
     return m
 
 
-def rand_prog(rng, width=None, malformed=False, length=None):
+def rand_prog(rng, width=None, malformed=False, length=None, reuse=0.0):
+    """reuse > 0: earlier commands come back (same operation and same arguments, or the same operation
+    with new arguments) — with case["alias"] these are the same Python objects.  No extra draw is made
+    from rng when reuse == 0, so the streams of the other generators are what they were."""
     width = rng.randint(1, 8) if width is None else width
     tys = [rng.choice(["Q", "Q", "B", "U"]) for _ in range(width)]
     track = rng.random() < 0.6
@@ -449,6 +541,37 @@ def rand_prog(rng, width=None, malformed=False, length=None):
         st.added(spec, args, ws)
         return True
 
+    seen = []    # [spec, args] of the commands so far
+
+    def fits(spec, args):
+        # mostly valid programs: integers live, wires allowed here, no integer beyond the outputs
+        for j, a in enumerate(args):
+            if is_int(a):
+                if not st.good(st.denotes(a)) or j >= op_out(spec):
+                    return False
+            elif limit[0] is not None and a[0] >= limit[0]:
+                return False
+        return spec[0] != "unpack"
+
+    def pick_op_reuse(bad):
+        if reuse and seen and not bad and rng.random() < reuse:
+            r = rng.random()
+            if r < 0.7:                                   # the same command once more
+                # (an UnpackTuple command is never replayed: its number of outputs is that of the wire's type)
+                cands = [c for c in seen if fits(*c)] if rng.random() < 0.9 else \
+                    [c for c in seen if c[0][0] != "unpack"]
+                if cands:
+                    spec, args = rng.choice(cands[-4:] if rng.random() < 0.6 else cands)
+                    return list(spec), [a if is_int(a) else list(a) for a in args]
+            spec = rng.choice(seen)[0]                    # the same operation, other arguments
+            if spec[0] == "custom":
+                args = pick_args(spec[1])
+                args = [a if (not is_int(a) or j < spec[2]) else pick_wire() for j, a in enumerate(args)]
+                return list(spec), args
+            if spec[0] == "noop":
+                return ["noop"], pick_args(1)
+        return pick_op(bad)
+
     alive = True
     for ci in range(n_cmds):
         bad = ci == bad_at
@@ -459,16 +582,26 @@ def rand_prog(rng, width=None, malformed=False, length=None):
             prog.append(["track_inputs"])
             continue
         if r < 0.5:
-            spec, args = pick_op(bad)
-            prog.append(["add", spec, rand_meta(rng), args])
+            spec, args = pick_op_reuse(bad)
+            m = rand_meta(rng)
+            if reuse:
+                old = [c[2] for c in prog if c[0] == "add" and c[2]]
+                if old and rng.random() < 0.3:
+                    m = json.loads(json.dumps(rng.choice(old)))
+            prog.append(["add", spec, m, args])
+            seen.append([spec, args])
             alive = apply_add(spec, args)
         elif r < 0.6:
             coms = []
             limit[0] = 2 + st.cnt
             for _ in range(rng.randint(0, 3)):
-                spec, args = pick_op(bad and rng.random() < 0.5)
+                spec, args = pick_op_reuse(bad and rng.random() < 0.5)
                 coms.append([spec, args])
+                seen.append([spec, args])
                 if alive:
+                    alive = apply_add(spec, args)
+                while reuse and alive and len(coms) < 5 and fits(spec, args) and rng.random() < 0.35:
+                    coms.append([list(spec), [a if is_int(a) else list(a) for a in args]])   # [c] * k
                     alive = apply_add(spec, args)
             limit[0] = None
             prog.append(["extend", coms])
@@ -513,6 +646,37 @@ def rand_prog(rng, width=None, malformed=False, length=None):
     return {"tys": tys, "track": track, "prog": prog}
 
 
+def has_unpack(case):
+    return any(spec[0] == "unpack" for c in case["prog"]
+               for spec in ([c[1]] if c[0] == "add" else [x[0] for x in c[1]] if c[0] == "extend" else []))
+
+
+def wellnamed(case):
+    """track_wire(s) stores a wire without looking at it; a candidate of the shrinker in which such a wire
+    names a node that is not there yet (its add was deleted) is not a program the names can express."""
+    cnt = 0
+    for c in case["prog"]:
+        if c[0] == "add":
+            cnt += 1
+        elif c[0] == "extend":
+            cnt += len(c[1])
+        elif c[0] in ("track_wire", "track_wires"):
+            for w in ([c[1]] if c[0] == "track_wire" else c[1]):
+                if w[0] >= 2 + cnt:
+                    return False
+    return True
+
+
+def rand_alias(rng):
+    r = rng.random()
+    if r < 0.15:
+        return [rng.choice(ALIAS_FLAGS)]
+    if r < 0.3:
+        return list(ALIAS_FLAGS)
+    fl = [f for f in ALIAS_FLAGS if rng.random() < (0.75 if f == "com" else 0.5)]
+    return fl or ["com"]
+
+
 class C15(fw.Prop):
     id = "C15"
     props_file = "props/C15.v"
@@ -524,14 +688,23 @@ class C15(fw.Prop):
             "repeated integers, metadata (None, {}, nested JSON), track_wire(s)/track_inputs, untrack (holes), "
             "set_indexed_outputs / set_tracked_outputs anywhere; a malformed stream injects one untracked / "
             "negative / retired index, a missing node, the Output node as a source or a dangling port.  Both "
-            "the tracked program and the explicit program are run on the real builders.  non-trivial = an "
+            "the tracked program and the explicit program are run on the real builders.  Object reuse: a "
+            "stream in which earlier commands come back (same operation and arguments, [c]*k inside one "
+            "extend, same operation with new arguments, same metadata) and case['alias'] decides which of "
+            "them are ONE Python object (Command, operation, incoming list, metadata dict), whether "
+            "track_wires gets a one-shot iterator, and whether the same objects are then handed to a second "
+            "TrackedDfg (Case2: both observations are monitored); 40% of the other streams get alias flags "
+            "too.  non-trivial = an "
             "integer argument is used after an earlier add rebound it, or a hole exists, or metadata is given, "
             "or the run ends in an exception")
     trusted = ["node naming by creation order: the harness maps names to the Node handles the builders return",
                "operations are observed through _to_serial(...).model_dump_json() plus the node's port counts; "
                "metadata values through json.dumps",
                "the plain-builder model (wire_up_port) is shared by both sides of the simulation theorem; it is "
-               "tied to Dfg.add/set_outputs by the correspondence on the explicit programs"]
+               "tied to Dfg.add/set_outputs by the correspondence on the explicit programs",
+               "object reuse (case['alias']) is realised by the harness: the plain builder gets its own objects "
+               "with the tracked side's operation-sharing pattern; partial operations are not shared in programs "
+               "with an UnpackTuple command"]
     assumptions = ["one flat dataflow region (all wires are siblings); wires name nodes by creation order"]
 
     def __init__(self):
@@ -557,6 +730,29 @@ class C15(fw.Prop):
              "prog": [["untrack", 1], ["add", ["custom", 2, 2, "cx"], {"name": "a"}, [2, 0]],
                       ["extend", [[["custom", 2, 2, "cx"], [0, 0]], [["maketuple"], [2, [0, 1]]]]],
                       ["track_wire", [0, 1]], ["set_tracked_outputs"]]},
+            # seeded C15-f: the caller's objects come back.  One Command object added twice ...
+            {"tys": ["Q"], "track": True, "alias": ["com"], "prog": [["add", c, None, [0]], ["add", c, None, [0]]]},
+            # ... twice within one extend (extend(*[H(1)] * 2)) ...
+            {"tys": ["Q", "Q"], "track": True, "alias": ["com"],
+             "prog": [["extend", [[c, [1]], [c, [1]]]], ["set_tracked_outputs"]]},
+            # ... with other commands in between, metadata on both uses, mixed wire / integer arguments
+            {"tys": ["B", "B"], "track": True, "alias": ["com", "op", "meta"],
+             "prog": [["add", ["custom", 2, 2, "cx"], {"k": "a"}, [0, [0, 1]]], ["add", ["noop"], None, [1]],
+                      ["add", ["custom", 2, 2, "cx"], {"k": "b"}, [0, [0, 1]]], ["extend", [[c, [1]], [c, [1]]]],
+                      ["set_tracked_outputs"]]},
+            # the same Command objects handed to a second builder
+            {"tys": ["Q"], "track": True, "alias": ["again"], "prog": [["add", c, {"k": 1}, [0]], ["set_tracked_outputs"]]},
+            # one `incoming` list in two commands; one operation object in commands on wires of different type;
+            # one metadata dict for two nodes; a one-shot iterator for track_wires
+            {"tys": ["Q", "Q"], "track": True, "alias": ["inc"],
+             "prog": [["add", c, None, [1]], ["add", ["custom", 1, 1, "rz"], None, [1]], ["set_tracked_outputs"]]},
+            {"tys": ["Q", "B"], "track": True, "alias": ["op", "again"],
+             "prog": [["add", ["noop"], None, [0]], ["add", ["noop"], None, [1]], ["add", ["maketuple"], None, [0, [3, 0]]],
+                      ["add", ["maketuple"], None, [[0, 0]]]]},
+            {"tys": ["Q"], "track": True, "alias": ["meta", "again"],
+             "prog": [["add", c, {"name": [1, {"a": None}]}, [0]], ["add", c, {"name": [1, {"a": None}]}, [0]]]},
+            {"tys": ["Q", "B"], "track": False, "alias": ["iter", "again"],
+             "prog": [["track_wires", [[0, 1], [0, 0]]], ["add", c, None, [1]], ["track_wires", []], ["set_tracked_outputs"]]},
         ]
 
     def generate(self, rng, tier, ctx):
@@ -569,14 +765,34 @@ class C15(fw.Prop):
         for w in range(1, 9):                      # every width, short and long
             cases.append(rand_prog(rng, width=w, length=3))
             cases.append(rand_prog(rng, width=w, length=12))
+        # (every draw below comes after the streams above: those are what they were)
+        # object reuse: the caller's Command / operation / incoming / metadata objects come back
+        for c in cases:
+            if rng.random() < 0.4:
+                c["alias"] = rand_alias(rng)
+        for i in range(300 * k):
+            c = rand_prog(rng, reuse=rng.choice([0.3, 0.5, 0.8]), malformed=(i % 8 == 7),
+                          width=rng.choice([None, 1, 2, 3]))
+            c["alias"] = rand_alias(rng)
+            cases.append(c)
         return cases
 
     def observe(self, case, ctx):
         q, complete = explicit(case)
-        return {"t": run_tracked(case, self.I), "q": q, "complete": complete, "p": run_plain(case, q, self.I)}
+        alias = case.get("alias") or ()
+        pool = Pool(alias, partial_ok=not has_unpack(case))
+        o = {"t": run_tracked(case, self.I, pool), "q": q, "complete": complete}
+        if "again" in alias:
+            # the same Command / metadata objects, handed to a second TrackedDfg
+            o["t2"] = run_tracked(case, self.I, pool, replay=True)
+        o["p"] = run_plain(case, q, self.I, pool.made_ops)
+        return o
 
     def literal(self, case, obs, ctx):
         L = self.L
+        if obs.get("t2") is not None:
+            return gapp("Case2", gN(len(case["tys"])), gbool(case["track"]), glist(L.cmd(c) for c in case["prog"]),
+                        L.obs(obs["t"]), L.obs(obs["t2"]), glist(L.pcmd(c) for c in obs["q"]), L.obs(obs["p"]))
         return gapp("Case", gN(len(case["tys"])), gbool(case["track"]), glist(L.cmd(c) for c in case["prog"]),
                     L.obs(obs["t"]), glist(L.pcmd(c) for c in obs["q"]), L.obs(obs["p"]))
 
@@ -613,9 +829,16 @@ class C15(fw.Prop):
             return "tracked:result-differs"
         if t["links"] != p["links"]:
             return "tracked:links-differ"
+        if obs.get("t2") is not None and obs["t2"] != t:
+            return "tracked:second-builder-differs"
         return "tracked:graph-differs"
 
     def shrink(self, case):
+        for c in self._shrink(case):
+            if wellnamed(c):
+                yield c
+
+    def _shrink(self, case):
         prog = case["prog"]
         for i in range(len(prog)):
             yield {**case, "prog": prog[:i] + prog[i + 1:]}
@@ -630,12 +853,16 @@ class C15(fw.Prop):
                     yield {**case, "prog": prog[:i] + [[c[0], c[1][:j] + c[1][j + 1:]]] + prog[i + 1:]}
         if len(case["tys"]) > 1:
             yield {**case, "tys": case["tys"][:-1]}
+        al = case.get("alias") or []
+        for f in al:
+            yield {**case, "alias": [g for g in al if g != f]}
 
     def neighbours(self, case, rng):
         out = list(self.shrink(case))
         for _ in range(300):
             c = json.loads(json.dumps(case))
-            extra = rand_prog(rng, width=len(c["tys"]), malformed=rng.random() < 0.3)["prog"]
+            extra = rand_prog(rng, width=len(c["tys"]), malformed=rng.random() < 0.3,
+                              reuse=0.5 if c.get("alias") else 0.0)["prog"]
             cut = rng.randint(0, len(c["prog"]))
             c["prog"] = c["prog"][:cut] + extra[: rng.randint(1, 4)]
             out.append(c)
@@ -643,8 +870,22 @@ class C15(fw.Prop):
 
     def distribution(self, cases, observations):
         d = {"width": {}, "commands": {}, "results": {}, "int_args": 0, "wire_args": 0, "with_metadata": 0,
-             "holes": 0, "nodes_built": 0}
+             "holes": 0, "nodes_built": 0, "alias_flags": {}, "command_objects_added_again": 0,
+             "command_objects_added_again_with_int": 0, "second_builder_runs": 0}
         for c, o in zip(cases, observations):
+            al = c.get("alias") or []
+            for f in al:
+                d["alias_flags"][f] = d["alias_flags"].get(f, 0) + 1
+            d["second_builder_runs"] += 1 if o.get("t2") is not None else 0
+            if "com" in al:
+                seen = set()
+                for cmd in c["prog"]:
+                    for spec, args in ([[cmd[1], cmd[3]]] if cmd[0] == "add" else cmd[1] if cmd[0] == "extend" else []):
+                        key = json.dumps([spec, args])
+                        if key in seen:
+                            d["command_objects_added_again"] += 1
+                            d["command_objects_added_again_with_int"] += 1 if any(is_int(a) for a in args) else 0
+                        seen.add(key)
             w = str(len(c["tys"]))
             d["width"][w] = d["width"].get(w, 0) + 1
             r = o["t"]["res"]
